@@ -4,6 +4,7 @@
 package main
 
 import (
+	"time"
 	"fmt"
 	"net"
 	"net/netip"
@@ -90,7 +91,34 @@ func sendPaths(r *lib.Run, rng *lib.Rand, n int) {
 	}
 	for i := 0; i < n; i++ {
 		id, seq := uint16(rng.U64()), uint16(rng.U64())
-		switch i % 5 {
+		switch i % 6 {
+		case 5:
+			// router advertisements grow with the number of prefixes / RDNSS servers: ICMPv6 messages from ~80 to
+			// ~500 bytes (the payload-length term of the pseudo header crosses 256), odd and even option counts
+			np := 1 + rng.Intn(14)
+			var pfx []packet.PrefixInformation
+			for k := 0; k < np; k++ {
+				a := ip6().As16()
+				pl := rng.Pick(48, 56, 64, 96, 128)
+				if rng.Intn(16) != 0 { // the marshaller refuses a prefix with host bits set; keep a few of those too
+					for b := pl / 8; b < 16; b++ {
+						a[b] = 0
+					}
+				}
+				pfx = append(pfx, packet.PrefixInformation{PrefixLength: uint8(pl), Prefix: net.IP(a[:])})
+			}
+			var rd *packet.RecursiveDNSServer
+			if rng.Bool() {
+				rd = &packet.RecursiveDNSServer{Lifetime: time.Duration(rng.Intn(7200)) * time.Second}
+				for k := 0; k < 1+rng.Intn(3); k++ {
+					a := ip6().As16()
+					rd.Servers = append(rd.Servers, net.IP(a[:]))
+				}
+			}
+			if err := s.ICMP6SendRouterAdvertisement(pfx, rd, packet.Addr{MAC: mac(), IP: ip6()}); err != nil {
+				r.Stat("class.send.ra-refused", 1)
+			}
+			emit("ICMP6SendRouterAdvertisement")
 		case 0:
 			s.ICMP4SendEchoRequest(packet.Addr{MAC: mac(), IP: ip4()}, packet.Addr{MAC: mac(), IP: ip4()}, id, seq)
 			emit("ICMP4SendEchoRequest")
